@@ -321,7 +321,7 @@ fn exec(a_ops: &[Op], b_ops: &[Op], render: bool) -> RunOutput {
     for e in &w.obs.borrow().events {
         h.str(&format!("{e:?}"));
     }
-    let out = RunOutput {
+    let out = RunOutput { blocked: false,
         steps: w.sim.steps,
         fingerprints: std::mem::take(&mut ck.fps),
         outcome: h.0,
